@@ -5,7 +5,9 @@ package pnet_test
 
 import (
 	"crypto/rand"
+	"io"
 	"net"
+	"sync"
 	"testing"
 	"time"
 
@@ -28,6 +30,99 @@ func (s *c02Short) Read(b []byte) (int, error) {
 		}
 	}
 	return s.Conn.Read(b)
+}
+
+// c02Mem is a one-directional in-memory connection: Write appends to a queue,
+// Read takes from it.  Two behaviours TCP never shows, both allowed by the
+// io.Reader / io.Writer contracts: the last bytes can be returned together with
+// io.EOF in one call, and the very first Write can fail with a timeout before
+// anything was sent (the caller retries).
+type c02Mem struct {
+	net.Conn
+	mu            sync.Mutex
+	cond          *sync.Cond
+	q             []byte
+	closed        bool
+	eofWithData   bool
+	failFirst     bool
+	writes        int
+	pat           []int
+	i             int
+}
+
+type c02Timeout struct{}
+
+func (c02Timeout) Error() string   { return "scripted timeout" }
+func (c02Timeout) Timeout() bool   { return true }
+func (c02Timeout) Temporary() bool { return true }
+
+func newC02Mem() *c02Mem { m := &c02Mem{}; m.cond = sync.NewCond(&m.mu); return m }
+
+func (m *c02Mem) Write(b []byte) (int, error) {
+	m.mu.Lock()
+	defer m.mu.Unlock()
+	m.writes++
+	if m.failFirst && m.writes == 1 {
+		return 0, c02Timeout{}
+	}
+	m.q = append(m.q, b...)
+	m.cond.Broadcast()
+	return len(b), nil
+}
+
+func (m *c02Mem) Close() error {
+	m.mu.Lock()
+	m.closed = true
+	m.cond.Broadcast()
+	m.mu.Unlock()
+	return nil
+}
+
+func (m *c02Mem) Read(b []byte) (int, error) {
+	m.mu.Lock()
+	defer m.mu.Unlock()
+	for len(m.q) == 0 && !m.closed {
+		m.cond.Wait()
+	}
+	if len(m.q) == 0 {
+		return 0, io.EOF
+	}
+	k := len(b)
+	if len(m.pat) > 0 {
+		p := m.pat[m.i%len(m.pat)]
+		m.i++
+		if p > 0 && p < k {
+			k = p
+		}
+	}
+	n := copy(b[:k], m.q)
+	m.q = m.q[n:]
+	if m.eofWithData && m.closed && len(m.q) == 0 {
+		return n, io.EOF
+	}
+	return n, nil
+}
+
+func (m *c02Mem) SetDeadline(time.Time) error      { return nil }
+func (m *c02Mem) SetReadDeadline(time.Time) error  { return nil }
+func (m *c02Mem) SetWriteDeadline(time.Time) error { return nil }
+
+// c02Retry retries a Write that failed with a timeout before anything was written
+type c02Retry struct{ w io.Writer }
+
+func (r c02Retry) Write(b []byte) (int, error) {
+	total := 0
+	for tries := 0; tries < 4; tries++ {
+		n, err := r.w.Write(b[total:])
+		total += n
+		if err == nil {
+			return total, nil
+		}
+		if ne, ok := err.(net.Error); !ok || !ne.Timeout() {
+			return total, err
+		}
+	}
+	return total, c02Timeout{}
 }
 
 func c02TCPPair(t *testing.T) (net.Conn, net.Conn) {
@@ -100,5 +195,39 @@ func TestVerifC02Pnet(t *testing.T) {
 		out.Cover("pnet.cases")
 		a.Close()
 		b.Close()
+	}
+	// scripted in-memory connection under the PSK wrapper
+	for i := 0; i < n; i++ {
+		m := newC02Mem()
+		m.eofWithData = r.Chance(2, 3)
+		m.failFirst = r.Chance(1, 2)
+		m.pat = shorts[r.Intn(len(shorts))]
+		wa, err := pnet.NewProtectedConn(psk, m)
+		if err != nil {
+			t.Fatal(err)
+		}
+		rb, err := pnet.NewProtectedConn(psk, m)
+		if err != nil {
+			t.Fatal(err)
+		}
+		nw := 1 + r.Intn(4)
+		wl := make([]int, nw)
+		for j := range wl {
+			if r.Chance(1, 2) {
+				wl[j] = 1 + sizes[r.Intn(len(sizes))]
+			} else {
+				wl[j] = 1 + r.Intn(50000)
+			}
+		}
+		bl := []int{1 + r.Intn(70000), 1 + sizes[1+r.Intn(len(sizes)-1)]}
+		base := r.Intn(1 << 19)
+		out.Case(verifh.StreamCase(3, 1, base, wl, bl, c02Retry{wa}, m.Close, rb, 25*time.Second))
+		out.Cover("pnet.cases_scripted_conn")
+		if m.eofWithData {
+			out.Cover("pnet.cases_last_bytes_with_eof")
+		}
+		if m.failFirst {
+			out.Cover("pnet.cases_first_write_times_out")
+		}
 	}
 }
